@@ -271,7 +271,11 @@ H("dgram_send_space_overflow_guard", ["C16"], "quick", "connection::datagrams::s
   [("total", "usize"), ("len", "usize"), ("bound", "usize")], 6, ["space", "no space"],
   ["DatagramState::has_send_buffer_space"], "every usize triple")
 
-# ------------------------------------------------------------------ frame.rs (C10, C03.b, C03.c)
+# ------------------------------------------------------------------ frame.rs (C10, C03.b)
+# NOTE: every obligation that goes through frame::Iter (which owns a `Bytes`) was removed from the table: even with
+# static-backed Bytes and one-byte varints a single frame class exhausts 20 GB in CBMC's propositional conversion after
+# ~12 minutes (measured 2026-09-26).  The bodies remain in hooks/proto/frame.rs (fixed_frame_roundtrip, new_cid_roundtrip,
+# stream_roundtrip, iter_step_total) for a future engine.
 H("ack_scan_and_iter_small", ["C03", "C10"], "quick", "frame::ack_scan_and_iter",
   [("buf", "[u8; 12]"), ("len", "usize"), ("largest", "u64"), ("n", "u8"), ("small", "bool", 1)], 7,
   ["accepted", "rejected", "with extra blocks"], ["scan_ack_blocks", "AckIter::next", "VarInt::decode"],
@@ -285,345 +289,6 @@ H("ack_blocks_roundtrip", ["C10"], "thorough", "frame::ack_blocks_roundtrip",
   ["one range", "two ranges", "three ranges"], ["scan_ack_blocks", "AckIter::next"], "1..=3 ranges anywhere below 2^62", heavy=True, timeout=1700)
 H("stream_type_bits", ["C10"], "quick", "frame::stream_type_bits", [("ty", "u64")], 4,
   ["STREAM", "DATAGRAM", "other"], ["FrameType::stream", "FrameType::datagram", "StreamInfo", "DatagramInfo"], "every u64 frame type")
-H("frame_roundtrip_small_00", ["C10"], "thorough", "frame::fixed_frame_roundtrip",
-  [("kind", "u8", 0), ("a", "u64"), ("b", "u64"), ("c", "u64"), ("d", "u64"), ("small", "bool", 1)], 8,
-  ["round-tripped"], ["frame::Iter::try_next", "frame encoder / BufMutExt primitives", "VarInt::encode", "VarInt::decode"],
-  "RESET_STREAM: every field < 64 (one-byte varints; PATH_* tokens: full 64 bits)", heavy=True, timeout=1700)
-H("frame_roundtrip_00", ["C10"], "thorough", "frame::fixed_frame_roundtrip",
-  [("kind", "u8", 0), ("a", "u64"), ("b", "u64"), ("c", "u64"), ("d", "u64"), ("small", "bool", 0)], 8,
-  ["round-tripped"], ["frame::Iter::try_next", "frame encoder / BufMutExt primitives", "VarInt::encode", "VarInt::decode"],
-  "RESET_STREAM: every field < 2^62", heavy=True, timeout=1700)
-H("frame_roundtrip_small_01", ["C10"], "thorough", "frame::fixed_frame_roundtrip",
-  [("kind", "u8", 1), ("a", "u64"), ("b", "u64"), ("c", "u64"), ("d", "u64"), ("small", "bool", 1)], 8,
-  ["round-tripped"], ["frame::Iter::try_next", "frame encoder / BufMutExt primitives", "VarInt::encode", "VarInt::decode"],
-  "STOP_SENDING: every field < 64 (one-byte varints; PATH_* tokens: full 64 bits)", heavy=True, timeout=1700)
-H("frame_roundtrip_01", ["C10"], "thorough", "frame::fixed_frame_roundtrip",
-  [("kind", "u8", 1), ("a", "u64"), ("b", "u64"), ("c", "u64"), ("d", "u64"), ("small", "bool", 0)], 8,
-  ["round-tripped"], ["frame::Iter::try_next", "frame encoder / BufMutExt primitives", "VarInt::encode", "VarInt::decode"],
-  "STOP_SENDING: every field < 2^62", heavy=True, timeout=1700)
-H("frame_roundtrip_small_02", ["C10"], "thorough", "frame::fixed_frame_roundtrip",
-  [("kind", "u8", 2), ("a", "u64"), ("b", "u64"), ("c", "u64"), ("d", "u64"), ("small", "bool", 1)], 8,
-  ["round-tripped"], ["frame::Iter::try_next", "frame encoder / BufMutExt primitives", "VarInt::encode", "VarInt::decode"],
-  "MAX_DATA: every field < 64 (one-byte varints; PATH_* tokens: full 64 bits)", heavy=True, timeout=1700)
-H("frame_roundtrip_02", ["C10"], "thorough", "frame::fixed_frame_roundtrip",
-  [("kind", "u8", 2), ("a", "u64"), ("b", "u64"), ("c", "u64"), ("d", "u64"), ("small", "bool", 0)], 8,
-  ["round-tripped"], ["frame::Iter::try_next", "frame encoder / BufMutExt primitives", "VarInt::encode", "VarInt::decode"],
-  "MAX_DATA: every field < 2^62", heavy=True, timeout=1700)
-H("frame_roundtrip_small_03", ["C10"], "thorough", "frame::fixed_frame_roundtrip",
-  [("kind", "u8", 3), ("a", "u64"), ("b", "u64"), ("c", "u64"), ("d", "u64"), ("small", "bool", 1)], 8,
-  ["round-tripped"], ["frame::Iter::try_next", "frame encoder / BufMutExt primitives", "VarInt::encode", "VarInt::decode"],
-  "MAX_STREAM_DATA: every field < 64 (one-byte varints; PATH_* tokens: full 64 bits)", heavy=True, timeout=1700)
-H("frame_roundtrip_03", ["C10"], "thorough", "frame::fixed_frame_roundtrip",
-  [("kind", "u8", 3), ("a", "u64"), ("b", "u64"), ("c", "u64"), ("d", "u64"), ("small", "bool", 0)], 8,
-  ["round-tripped"], ["frame::Iter::try_next", "frame encoder / BufMutExt primitives", "VarInt::encode", "VarInt::decode"],
-  "MAX_STREAM_DATA: every field < 2^62", heavy=True, timeout=1700)
-H("frame_roundtrip_small_04", ["C10"], "thorough", "frame::fixed_frame_roundtrip",
-  [("kind", "u8", 4), ("a", "u64"), ("b", "u64"), ("c", "u64"), ("d", "u64"), ("small", "bool", 1)], 8,
-  ["round-tripped"], ["frame::Iter::try_next", "frame encoder / BufMutExt primitives", "VarInt::encode", "VarInt::decode"],
-  "MAX_STREAMS: every field < 64 (one-byte varints; PATH_* tokens: full 64 bits)", heavy=True, timeout=1700)
-H("frame_roundtrip_04", ["C10"], "thorough", "frame::fixed_frame_roundtrip",
-  [("kind", "u8", 4), ("a", "u64"), ("b", "u64"), ("c", "u64"), ("d", "u64"), ("small", "bool", 0)], 8,
-  ["round-tripped"], ["frame::Iter::try_next", "frame encoder / BufMutExt primitives", "VarInt::encode", "VarInt::decode"],
-  "MAX_STREAMS: every field < 2^62", heavy=True, timeout=1700)
-H("frame_roundtrip_small_05", ["C10"], "thorough", "frame::fixed_frame_roundtrip",
-  [("kind", "u8", 5), ("a", "u64"), ("b", "u64"), ("c", "u64"), ("d", "u64"), ("small", "bool", 1)], 8,
-  ["round-tripped"], ["frame::Iter::try_next", "frame encoder / BufMutExt primitives", "VarInt::encode", "VarInt::decode"],
-  "DATA_BLOCKED: every field < 64 (one-byte varints; PATH_* tokens: full 64 bits)", heavy=True, timeout=1700)
-H("frame_roundtrip_05", ["C10"], "thorough", "frame::fixed_frame_roundtrip",
-  [("kind", "u8", 5), ("a", "u64"), ("b", "u64"), ("c", "u64"), ("d", "u64"), ("small", "bool", 0)], 8,
-  ["round-tripped"], ["frame::Iter::try_next", "frame encoder / BufMutExt primitives", "VarInt::encode", "VarInt::decode"],
-  "DATA_BLOCKED: every field < 2^62", heavy=True, timeout=1700)
-H("frame_roundtrip_small_06", ["C10"], "thorough", "frame::fixed_frame_roundtrip",
-  [("kind", "u8", 6), ("a", "u64"), ("b", "u64"), ("c", "u64"), ("d", "u64"), ("small", "bool", 1)], 8,
-  ["round-tripped"], ["frame::Iter::try_next", "frame encoder / BufMutExt primitives", "VarInt::encode", "VarInt::decode"],
-  "STREAM_DATA_BLOCKED: every field < 64 (one-byte varints; PATH_* tokens: full 64 bits)", heavy=True, timeout=1700)
-H("frame_roundtrip_06", ["C10"], "thorough", "frame::fixed_frame_roundtrip",
-  [("kind", "u8", 6), ("a", "u64"), ("b", "u64"), ("c", "u64"), ("d", "u64"), ("small", "bool", 0)], 8,
-  ["round-tripped"], ["frame::Iter::try_next", "frame encoder / BufMutExt primitives", "VarInt::encode", "VarInt::decode"],
-  "STREAM_DATA_BLOCKED: every field < 2^62", heavy=True, timeout=1700)
-H("frame_roundtrip_small_07", ["C10"], "thorough", "frame::fixed_frame_roundtrip",
-  [("kind", "u8", 7), ("a", "u64"), ("b", "u64"), ("c", "u64"), ("d", "u64"), ("small", "bool", 1)], 8,
-  ["round-tripped"], ["frame::Iter::try_next", "frame encoder / BufMutExt primitives", "VarInt::encode", "VarInt::decode"],
-  "STREAMS_BLOCKED: every field < 64 (one-byte varints; PATH_* tokens: full 64 bits)", heavy=True, timeout=1700)
-H("frame_roundtrip_07", ["C10"], "thorough", "frame::fixed_frame_roundtrip",
-  [("kind", "u8", 7), ("a", "u64"), ("b", "u64"), ("c", "u64"), ("d", "u64"), ("small", "bool", 0)], 8,
-  ["round-tripped"], ["frame::Iter::try_next", "frame encoder / BufMutExt primitives", "VarInt::encode", "VarInt::decode"],
-  "STREAMS_BLOCKED: every field < 2^62", heavy=True, timeout=1700)
-H("frame_roundtrip_small_08", ["C10"], "thorough", "frame::fixed_frame_roundtrip",
-  [("kind", "u8", 8), ("a", "u64"), ("b", "u64"), ("c", "u64"), ("d", "u64"), ("small", "bool", 1)], 8,
-  ["round-tripped"], ["frame::Iter::try_next", "frame encoder / BufMutExt primitives", "VarInt::encode", "VarInt::decode"],
-  "RETIRE_CONNECTION_ID: every field < 64 (one-byte varints; PATH_* tokens: full 64 bits)", heavy=True, timeout=1700)
-H("frame_roundtrip_08", ["C10"], "thorough", "frame::fixed_frame_roundtrip",
-  [("kind", "u8", 8), ("a", "u64"), ("b", "u64"), ("c", "u64"), ("d", "u64"), ("small", "bool", 0)], 8,
-  ["round-tripped"], ["frame::Iter::try_next", "frame encoder / BufMutExt primitives", "VarInt::encode", "VarInt::decode"],
-  "RETIRE_CONNECTION_ID: every field < 2^62", heavy=True, timeout=1700)
-H("frame_roundtrip_small_09", ["C10"], "thorough", "frame::fixed_frame_roundtrip",
-  [("kind", "u8", 9), ("a", "u64"), ("b", "u64"), ("c", "u64"), ("d", "u64"), ("small", "bool", 1)], 8,
-  ["round-tripped"], ["frame::Iter::try_next", "frame encoder / BufMutExt primitives", "VarInt::encode", "VarInt::decode"],
-  "PATH_CHALLENGE/RESPONSE: every field < 64 (one-byte varints; PATH_* tokens: full 64 bits)", heavy=True, timeout=1700)
-H("frame_roundtrip_09", ["C10"], "thorough", "frame::fixed_frame_roundtrip",
-  [("kind", "u8", 9), ("a", "u64"), ("b", "u64"), ("c", "u64"), ("d", "u64"), ("small", "bool", 0)], 8,
-  ["round-tripped"], ["frame::Iter::try_next", "frame encoder / BufMutExt primitives", "VarInt::encode", "VarInt::decode"],
-  "PATH_CHALLENGE/RESPONSE: every field < 2^62", heavy=True, timeout=1700)
-H("frame_roundtrip_small_10", ["C10"], "thorough", "frame::fixed_frame_roundtrip",
-  [("kind", "u8", 10), ("a", "u64"), ("b", "u64"), ("c", "u64"), ("d", "u64"), ("small", "bool", 1)], 8,
-  ["round-tripped"], ["frame::Iter::try_next", "frame encoder / BufMutExt primitives", "VarInt::encode", "VarInt::decode"],
-  "ACK_FREQUENCY: every field < 64 (one-byte varints; PATH_* tokens: full 64 bits)", heavy=True, timeout=1700)
-H("frame_roundtrip_10", ["C10"], "thorough", "frame::fixed_frame_roundtrip",
-  [("kind", "u8", 10), ("a", "u64"), ("b", "u64"), ("c", "u64"), ("d", "u64"), ("small", "bool", 0)], 8,
-  ["round-tripped"], ["frame::Iter::try_next", "frame encoder / BufMutExt primitives", "VarInt::encode", "VarInt::decode"],
-  "ACK_FREQUENCY: every field < 2^62", heavy=True, timeout=1700)
-H("frame_roundtrip_small_11", ["C10"], "thorough", "frame::fixed_frame_roundtrip",
-  [("kind", "u8", 11), ("a", "u64"), ("b", "u64"), ("c", "u64"), ("d", "u64"), ("small", "bool", 1)], 8,
-  ["round-tripped"], ["frame::Iter::try_next", "frame encoder / BufMutExt primitives", "VarInt::encode", "VarInt::decode"],
-  "PADDING/PING/IMMEDIATE_ACK/HANDSHAKE_DONE: every field < 64 (one-byte varints; PATH_* tokens: full 64 bits)", heavy=True, timeout=1700)
-H("frame_roundtrip_11", ["C10"], "thorough", "frame::fixed_frame_roundtrip",
-  [("kind", "u8", 11), ("a", "u64"), ("b", "u64"), ("c", "u64"), ("d", "u64"), ("small", "bool", 0)], 8,
-  ["round-tripped"], ["frame::Iter::try_next", "frame encoder / BufMutExt primitives", "VarInt::encode", "VarInt::decode"],
-  "PADDING/PING/IMMEDIATE_ACK/HANDSHAKE_DONE: every field < 2^62", heavy=True, timeout=1700)
-H("frame_new_cid_roundtrip", ["C10", "C03"], "thorough", "frame::new_cid_roundtrip",
-  [("sequence", "u64"), ("retire_prior_to", "u64"), ("cid", "[u8; 20]"), ("len", "usize"), ("token", "[u8; 16]")], 22,
-  ["round-tripped", "20-byte CID"], ["NewConnectionId::encode", "frame::Iter::try_next"], "retire_prior_to <= sequence < 2^62, every CID length 1..=20 and content, every token", heavy=True, timeout=1700)
-H("frame_stream_roundtrip", ["C10", "C01"], "thorough", "frame::stream_roundtrip",
-  [("id", "u64"), ("offset", "u64"), ("fin", "bool"), ("length", "bool"), ("data", "[u8; 4]"), ("len", "usize")], 12,
-  ["round-tripped", "explicit length", "implicit length", "offset 0"], ["StreamMeta::encode", "frame::Iter::try_next", "Frame::ty"],
-  "every id/offset < 2^62, both length modes, payload <= 4 bytes", heavy=True, timeout=1700)
-H("frame_iter_small_00", ["C03", "C10"], "thorough", "frame::iter_step_total",
-  [("first", "u8", 0), ("rest", "[u8; 11]"), ("len", "usize"), ("small", "bool", 1)], 6,
-  ["frame decoded", "frame rejected"], ["frame::Iter::new", "frame::Iter::next", "frame::Iter::try_next", "frame::Iter::take_len", "scan_ack_blocks"],
-  "first byte PADDING, then every 0..=11 bytes each < 0x40 (one-byte varints), payload length 1..=12", heavy=True, timeout=1700)
-H("frame_iter_small_01", ["C03", "C10"], "thorough", "frame::iter_step_total",
-  [("first", "u8", 1), ("rest", "[u8; 11]"), ("len", "usize"), ("small", "bool", 1)], 6,
-  ["frame decoded", "frame rejected"], ["frame::Iter::new", "frame::Iter::next", "frame::Iter::try_next", "frame::Iter::take_len", "scan_ack_blocks"],
-  "first byte PING, then every 0..=11 bytes each < 0x40 (one-byte varints), payload length 1..=12", heavy=True, timeout=1700)
-H("frame_iter_small_02", ["C03", "C10"], "thorough", "frame::iter_step_total",
-  [("first", "u8", 2), ("rest", "[u8; 11]"), ("len", "usize"), ("small", "bool", 1)], 6,
-  ["frame decoded", "frame rejected"], ["frame::Iter::new", "frame::Iter::next", "frame::Iter::try_next", "frame::Iter::take_len", "scan_ack_blocks"],
-  "first byte ACK, then every 0..=11 bytes each < 0x40 (one-byte varints), payload length 1..=12", heavy=True, timeout=1700)
-H("frame_iter_small_03", ["C03", "C10"], "thorough", "frame::iter_step_total",
-  [("first", "u8", 3), ("rest", "[u8; 11]"), ("len", "usize"), ("small", "bool", 1)], 6,
-  ["frame decoded", "frame rejected"], ["frame::Iter::new", "frame::Iter::next", "frame::Iter::try_next", "frame::Iter::take_len", "scan_ack_blocks"],
-  "first byte ACK_ECN, then every 0..=11 bytes each < 0x40 (one-byte varints), payload length 1..=12", heavy=True, timeout=1700)
-H("frame_iter_small_04", ["C03", "C10"], "thorough", "frame::iter_step_total",
-  [("first", "u8", 4), ("rest", "[u8; 11]"), ("len", "usize"), ("small", "bool", 1)], 6,
-  ["frame decoded", "frame rejected"], ["frame::Iter::new", "frame::Iter::next", "frame::Iter::try_next", "frame::Iter::take_len", "scan_ack_blocks"],
-  "first byte RESET_STREAM, then every 0..=11 bytes each < 0x40 (one-byte varints), payload length 1..=12", heavy=True, timeout=1700)
-H("frame_iter_small_05", ["C03", "C10"], "thorough", "frame::iter_step_total",
-  [("first", "u8", 5), ("rest", "[u8; 11]"), ("len", "usize"), ("small", "bool", 1)], 6,
-  ["frame decoded", "frame rejected"], ["frame::Iter::new", "frame::Iter::next", "frame::Iter::try_next", "frame::Iter::take_len", "scan_ack_blocks"],
-  "first byte STOP_SENDING, then every 0..=11 bytes each < 0x40 (one-byte varints), payload length 1..=12", heavy=True, timeout=1700)
-H("frame_iter_small_06", ["C03", "C10"], "thorough", "frame::iter_step_total",
-  [("first", "u8", 6), ("rest", "[u8; 11]"), ("len", "usize"), ("small", "bool", 1)], 6,
-  ["frame decoded", "frame rejected"], ["frame::Iter::new", "frame::Iter::next", "frame::Iter::try_next", "frame::Iter::take_len", "scan_ack_blocks"],
-  "first byte CRYPTO, then every 0..=11 bytes each < 0x40 (one-byte varints), payload length 1..=12", heavy=True, timeout=1700)
-H("frame_iter_small_07", ["C03", "C10"], "thorough", "frame::iter_step_total",
-  [("first", "u8", 7), ("rest", "[u8; 11]"), ("len", "usize"), ("small", "bool", 1)], 6,
-  ["frame decoded", "frame rejected"], ["frame::Iter::new", "frame::Iter::next", "frame::Iter::try_next", "frame::Iter::take_len", "scan_ack_blocks"],
-  "first byte NEW_TOKEN, then every 0..=11 bytes each < 0x40 (one-byte varints), payload length 1..=12", heavy=True, timeout=1700)
-H("frame_iter_small_08", ["C03", "C10"], "thorough", "frame::iter_step_total",
-  [("first", "u8", 8), ("rest", "[u8; 11]"), ("len", "usize"), ("small", "bool", 1)], 6,
-  ["frame decoded", "frame rejected"], ["frame::Iter::new", "frame::Iter::next", "frame::Iter::try_next", "frame::Iter::take_len", "scan_ack_blocks"],
-  "first byte STREAM 0x08, then every 0..=11 bytes each < 0x40 (one-byte varints), payload length 1..=12", heavy=True, timeout=1700)
-H("frame_iter_small_0a", ["C03", "C10"], "thorough", "frame::iter_step_total",
-  [("first", "u8", 10), ("rest", "[u8; 11]"), ("len", "usize"), ("small", "bool", 1)], 6,
-  ["frame decoded", "frame rejected"], ["frame::Iter::new", "frame::Iter::next", "frame::Iter::try_next", "frame::Iter::take_len", "scan_ack_blocks"],
-  "first byte STREAM 0x0a, then every 0..=11 bytes each < 0x40 (one-byte varints), payload length 1..=12", heavy=True, timeout=1700)
-H("frame_iter_small_0e", ["C03", "C10"], "thorough", "frame::iter_step_total",
-  [("first", "u8", 14), ("rest", "[u8; 11]"), ("len", "usize"), ("small", "bool", 1)], 6,
-  ["frame decoded", "frame rejected"], ["frame::Iter::new", "frame::Iter::next", "frame::Iter::try_next", "frame::Iter::take_len", "scan_ack_blocks"],
-  "first byte STREAM 0x0e, then every 0..=11 bytes each < 0x40 (one-byte varints), payload length 1..=12", heavy=True, timeout=1700)
-H("frame_iter_small_0f", ["C03", "C10"], "thorough", "frame::iter_step_total",
-  [("first", "u8", 15), ("rest", "[u8; 11]"), ("len", "usize"), ("small", "bool", 1)], 6,
-  ["frame decoded", "frame rejected"], ["frame::Iter::new", "frame::Iter::next", "frame::Iter::try_next", "frame::Iter::take_len", "scan_ack_blocks"],
-  "first byte STREAM 0x0f, then every 0..=11 bytes each < 0x40 (one-byte varints), payload length 1..=12", heavy=True, timeout=1700)
-H("frame_iter_small_10", ["C03", "C10"], "thorough", "frame::iter_step_total",
-  [("first", "u8", 16), ("rest", "[u8; 11]"), ("len", "usize"), ("small", "bool", 1)], 6,
-  ["frame decoded", "frame rejected"], ["frame::Iter::new", "frame::Iter::next", "frame::Iter::try_next", "frame::Iter::take_len", "scan_ack_blocks"],
-  "first byte MAX_DATA, then every 0..=11 bytes each < 0x40 (one-byte varints), payload length 1..=12", heavy=True, timeout=1700)
-H("frame_iter_small_11", ["C03", "C10"], "thorough", "frame::iter_step_total",
-  [("first", "u8", 17), ("rest", "[u8; 11]"), ("len", "usize"), ("small", "bool", 1)], 6,
-  ["frame decoded", "frame rejected"], ["frame::Iter::new", "frame::Iter::next", "frame::Iter::try_next", "frame::Iter::take_len", "scan_ack_blocks"],
-  "first byte MAX_STREAM_DATA, then every 0..=11 bytes each < 0x40 (one-byte varints), payload length 1..=12", heavy=True, timeout=1700)
-H("frame_iter_small_12", ["C03", "C10"], "thorough", "frame::iter_step_total",
-  [("first", "u8", 18), ("rest", "[u8; 11]"), ("len", "usize"), ("small", "bool", 1)], 6,
-  ["frame decoded", "frame rejected"], ["frame::Iter::new", "frame::Iter::next", "frame::Iter::try_next", "frame::Iter::take_len", "scan_ack_blocks"],
-  "first byte MAX_STREAMS_BIDI, then every 0..=11 bytes each < 0x40 (one-byte varints), payload length 1..=12", heavy=True, timeout=1700)
-H("frame_iter_small_14", ["C03", "C10"], "thorough", "frame::iter_step_total",
-  [("first", "u8", 20), ("rest", "[u8; 11]"), ("len", "usize"), ("small", "bool", 1)], 6,
-  ["frame decoded", "frame rejected"], ["frame::Iter::new", "frame::Iter::next", "frame::Iter::try_next", "frame::Iter::take_len", "scan_ack_blocks"],
-  "first byte DATA_BLOCKED, then every 0..=11 bytes each < 0x40 (one-byte varints), payload length 1..=12", heavy=True, timeout=1700)
-H("frame_iter_small_15", ["C03", "C10"], "thorough", "frame::iter_step_total",
-  [("first", "u8", 21), ("rest", "[u8; 11]"), ("len", "usize"), ("small", "bool", 1)], 6,
-  ["frame decoded", "frame rejected"], ["frame::Iter::new", "frame::Iter::next", "frame::Iter::try_next", "frame::Iter::take_len", "scan_ack_blocks"],
-  "first byte STREAM_DATA_BLOCKED, then every 0..=11 bytes each < 0x40 (one-byte varints), payload length 1..=12", heavy=True, timeout=1700)
-H("frame_iter_small_17", ["C03", "C10"], "thorough", "frame::iter_step_total",
-  [("first", "u8", 23), ("rest", "[u8; 11]"), ("len", "usize"), ("small", "bool", 1)], 6,
-  ["frame decoded", "frame rejected"], ["frame::Iter::new", "frame::Iter::next", "frame::Iter::try_next", "frame::Iter::take_len", "scan_ack_blocks"],
-  "first byte STREAMS_BLOCKED_UNI, then every 0..=11 bytes each < 0x40 (one-byte varints), payload length 1..=12", heavy=True, timeout=1700)
-H("frame_iter_small_18", ["C03", "C10"], "thorough", "frame::iter_step_total",
-  [("first", "u8", 24), ("rest", "[u8; 11]"), ("len", "usize"), ("small", "bool", 1)], 6,
-  ["frame decoded", "frame rejected"], ["frame::Iter::new", "frame::Iter::next", "frame::Iter::try_next", "frame::Iter::take_len", "scan_ack_blocks"],
-  "first byte NEW_CONNECTION_ID, then every 0..=11 bytes each < 0x40 (one-byte varints), payload length 1..=12", heavy=True, timeout=1700)
-H("frame_iter_small_19", ["C03", "C10"], "thorough", "frame::iter_step_total",
-  [("first", "u8", 25), ("rest", "[u8; 11]"), ("len", "usize"), ("small", "bool", 1)], 6,
-  ["frame decoded", "frame rejected"], ["frame::Iter::new", "frame::Iter::next", "frame::Iter::try_next", "frame::Iter::take_len", "scan_ack_blocks"],
-  "first byte RETIRE_CONNECTION_ID, then every 0..=11 bytes each < 0x40 (one-byte varints), payload length 1..=12", heavy=True, timeout=1700)
-H("frame_iter_small_1a", ["C03", "C10"], "thorough", "frame::iter_step_total",
-  [("first", "u8", 26), ("rest", "[u8; 11]"), ("len", "usize"), ("small", "bool", 1)], 6,
-  ["frame decoded", "frame rejected"], ["frame::Iter::new", "frame::Iter::next", "frame::Iter::try_next", "frame::Iter::take_len", "scan_ack_blocks"],
-  "first byte PATH_CHALLENGE, then every 0..=11 bytes each < 0x40 (one-byte varints), payload length 1..=12", heavy=True, timeout=1700)
-H("frame_iter_small_1c", ["C03", "C10"], "thorough", "frame::iter_step_total",
-  [("first", "u8", 28), ("rest", "[u8; 11]"), ("len", "usize"), ("small", "bool", 1)], 6,
-  ["frame decoded", "frame rejected"], ["frame::Iter::new", "frame::Iter::next", "frame::Iter::try_next", "frame::Iter::take_len", "scan_ack_blocks"],
-  "first byte CONNECTION_CLOSE, then every 0..=11 bytes each < 0x40 (one-byte varints), payload length 1..=12", heavy=True, timeout=1700)
-H("frame_iter_small_1d", ["C03", "C10"], "thorough", "frame::iter_step_total",
-  [("first", "u8", 29), ("rest", "[u8; 11]"), ("len", "usize"), ("small", "bool", 1)], 6,
-  ["frame decoded", "frame rejected"], ["frame::Iter::new", "frame::Iter::next", "frame::Iter::try_next", "frame::Iter::take_len", "scan_ack_blocks"],
-  "first byte APPLICATION_CLOSE, then every 0..=11 bytes each < 0x40 (one-byte varints), payload length 1..=12", heavy=True, timeout=1700)
-H("frame_iter_small_1e", ["C03", "C10"], "thorough", "frame::iter_step_total",
-  [("first", "u8", 30), ("rest", "[u8; 11]"), ("len", "usize"), ("small", "bool", 1)], 6,
-  ["frame decoded", "frame rejected"], ["frame::Iter::new", "frame::Iter::next", "frame::Iter::try_next", "frame::Iter::take_len", "scan_ack_blocks"],
-  "first byte HANDSHAKE_DONE, then every 0..=11 bytes each < 0x40 (one-byte varints), payload length 1..=12", heavy=True, timeout=1700)
-H("frame_iter_small_1f", ["C03", "C10"], "thorough", "frame::iter_step_total",
-  [("first", "u8", 31), ("rest", "[u8; 11]"), ("len", "usize"), ("small", "bool", 1)], 6,
-  ["frame decoded", "frame rejected"], ["frame::Iter::new", "frame::Iter::next", "frame::Iter::try_next", "frame::Iter::take_len", "scan_ack_blocks"],
-  "first byte IMMEDIATE_ACK, then every 0..=11 bytes each < 0x40 (one-byte varints), payload length 1..=12", heavy=True, timeout=1700)
-H("frame_iter_small_30", ["C03", "C10"], "thorough", "frame::iter_step_total",
-  [("first", "u8", 48), ("rest", "[u8; 11]"), ("len", "usize"), ("small", "bool", 1)], 6,
-  ["frame decoded", "frame rejected"], ["frame::Iter::new", "frame::Iter::next", "frame::Iter::try_next", "frame::Iter::take_len", "scan_ack_blocks"],
-  "first byte DATAGRAM, then every 0..=11 bytes each < 0x40 (one-byte varints), payload length 1..=12", heavy=True, timeout=1700)
-H("frame_iter_small_31", ["C03", "C10"], "thorough", "frame::iter_step_total",
-  [("first", "u8", 49), ("rest", "[u8; 11]"), ("len", "usize"), ("small", "bool", 1)], 6,
-  ["frame decoded", "frame rejected"], ["frame::Iter::new", "frame::Iter::next", "frame::Iter::try_next", "frame::Iter::take_len", "scan_ack_blocks"],
-  "first byte DATAGRAM+len, then every 0..=11 bytes each < 0x40 (one-byte varints), payload length 1..=12", heavy=True, timeout=1700)
-H("frame_iter_small_20", ["C03", "C10"], "thorough", "frame::iter_step_total",
-  [("first", "u8", 32), ("rest", "[u8; 11]"), ("len", "usize"), ("small", "bool", 1)], 6,
-  ["frame decoded", "frame rejected"], ["frame::Iter::new", "frame::Iter::next", "frame::Iter::try_next", "frame::Iter::take_len", "scan_ack_blocks"],
-  "first byte undefined type 0x20, then every 0..=11 bytes each < 0x40 (one-byte varints), payload length 1..=12", heavy=True, timeout=1700)
-H("frame_iter_total_00", ["C03", "C10"], "thorough", "frame::iter_step_total",
-  [("first", "u8", 0), ("rest", "[u8; 11]"), ("len", "usize"), ("small", "bool", 0)], 6,
-  ["frame decoded", "frame rejected"], ["frame::Iter::new", "frame::Iter::next", "frame::Iter::try_next", "frame::Iter::take_len", "scan_ack_blocks"],
-  "first byte PADDING, then every 0..=11 arbitrary bytes (payload length 1..=12)", heavy=True, timeout=1700)
-H("frame_iter_total_01", ["C03", "C10"], "thorough", "frame::iter_step_total",
-  [("first", "u8", 1), ("rest", "[u8; 11]"), ("len", "usize"), ("small", "bool", 0)], 6,
-  ["frame decoded", "frame rejected"], ["frame::Iter::new", "frame::Iter::next", "frame::Iter::try_next", "frame::Iter::take_len", "scan_ack_blocks"],
-  "first byte PING, then every 0..=11 arbitrary bytes (payload length 1..=12)", heavy=True, timeout=1700)
-H("frame_iter_total_02", ["C03", "C10"], "thorough", "frame::iter_step_total",
-  [("first", "u8", 2), ("rest", "[u8; 11]"), ("len", "usize"), ("small", "bool", 0)], 6,
-  ["frame decoded", "frame rejected"], ["frame::Iter::new", "frame::Iter::next", "frame::Iter::try_next", "frame::Iter::take_len", "scan_ack_blocks"],
-  "first byte ACK, then every 0..=11 arbitrary bytes (payload length 1..=12)", heavy=True, timeout=1700)
-H("frame_iter_total_03", ["C03", "C10"], "thorough", "frame::iter_step_total",
-  [("first", "u8", 3), ("rest", "[u8; 11]"), ("len", "usize"), ("small", "bool", 0)], 6,
-  ["frame decoded", "frame rejected"], ["frame::Iter::new", "frame::Iter::next", "frame::Iter::try_next", "frame::Iter::take_len", "scan_ack_blocks"],
-  "first byte ACK_ECN, then every 0..=11 arbitrary bytes (payload length 1..=12)", heavy=True, timeout=1700)
-H("frame_iter_total_04", ["C03", "C10"], "thorough", "frame::iter_step_total",
-  [("first", "u8", 4), ("rest", "[u8; 11]"), ("len", "usize"), ("small", "bool", 0)], 6,
-  ["frame decoded", "frame rejected"], ["frame::Iter::new", "frame::Iter::next", "frame::Iter::try_next", "frame::Iter::take_len", "scan_ack_blocks"],
-  "first byte RESET_STREAM, then every 0..=11 arbitrary bytes (payload length 1..=12)", heavy=True, timeout=1700)
-H("frame_iter_total_05", ["C03", "C10"], "thorough", "frame::iter_step_total",
-  [("first", "u8", 5), ("rest", "[u8; 11]"), ("len", "usize"), ("small", "bool", 0)], 6,
-  ["frame decoded", "frame rejected"], ["frame::Iter::new", "frame::Iter::next", "frame::Iter::try_next", "frame::Iter::take_len", "scan_ack_blocks"],
-  "first byte STOP_SENDING, then every 0..=11 arbitrary bytes (payload length 1..=12)", heavy=True, timeout=1700)
-H("frame_iter_total_06", ["C03", "C10"], "thorough", "frame::iter_step_total",
-  [("first", "u8", 6), ("rest", "[u8; 11]"), ("len", "usize"), ("small", "bool", 0)], 6,
-  ["frame decoded", "frame rejected"], ["frame::Iter::new", "frame::Iter::next", "frame::Iter::try_next", "frame::Iter::take_len", "scan_ack_blocks"],
-  "first byte CRYPTO, then every 0..=11 arbitrary bytes (payload length 1..=12)", heavy=True, timeout=1700)
-H("frame_iter_total_07", ["C03", "C10"], "thorough", "frame::iter_step_total",
-  [("first", "u8", 7), ("rest", "[u8; 11]"), ("len", "usize"), ("small", "bool", 0)], 6,
-  ["frame decoded", "frame rejected"], ["frame::Iter::new", "frame::Iter::next", "frame::Iter::try_next", "frame::Iter::take_len", "scan_ack_blocks"],
-  "first byte NEW_TOKEN, then every 0..=11 arbitrary bytes (payload length 1..=12)", heavy=True, timeout=1700)
-H("frame_iter_total_08", ["C03", "C10"], "thorough", "frame::iter_step_total",
-  [("first", "u8", 8), ("rest", "[u8; 11]"), ("len", "usize"), ("small", "bool", 0)], 6,
-  ["frame decoded", "frame rejected"], ["frame::Iter::new", "frame::Iter::next", "frame::Iter::try_next", "frame::Iter::take_len", "scan_ack_blocks"],
-  "first byte STREAM 0x08, then every 0..=11 arbitrary bytes (payload length 1..=12)", heavy=True, timeout=1700)
-H("frame_iter_total_0a", ["C03", "C10"], "thorough", "frame::iter_step_total",
-  [("first", "u8", 10), ("rest", "[u8; 11]"), ("len", "usize"), ("small", "bool", 0)], 6,
-  ["frame decoded", "frame rejected"], ["frame::Iter::new", "frame::Iter::next", "frame::Iter::try_next", "frame::Iter::take_len", "scan_ack_blocks"],
-  "first byte STREAM 0x0a, then every 0..=11 arbitrary bytes (payload length 1..=12)", heavy=True, timeout=1700)
-H("frame_iter_total_0e", ["C03", "C10"], "thorough", "frame::iter_step_total",
-  [("first", "u8", 14), ("rest", "[u8; 11]"), ("len", "usize"), ("small", "bool", 0)], 6,
-  ["frame decoded", "frame rejected"], ["frame::Iter::new", "frame::Iter::next", "frame::Iter::try_next", "frame::Iter::take_len", "scan_ack_blocks"],
-  "first byte STREAM 0x0e, then every 0..=11 arbitrary bytes (payload length 1..=12)", heavy=True, timeout=1700)
-H("frame_iter_total_0f", ["C03", "C10"], "thorough", "frame::iter_step_total",
-  [("first", "u8", 15), ("rest", "[u8; 11]"), ("len", "usize"), ("small", "bool", 0)], 6,
-  ["frame decoded", "frame rejected"], ["frame::Iter::new", "frame::Iter::next", "frame::Iter::try_next", "frame::Iter::take_len", "scan_ack_blocks"],
-  "first byte STREAM 0x0f, then every 0..=11 arbitrary bytes (payload length 1..=12)", heavy=True, timeout=1700)
-H("frame_iter_total_10", ["C03", "C10"], "thorough", "frame::iter_step_total",
-  [("first", "u8", 16), ("rest", "[u8; 11]"), ("len", "usize"), ("small", "bool", 0)], 6,
-  ["frame decoded", "frame rejected"], ["frame::Iter::new", "frame::Iter::next", "frame::Iter::try_next", "frame::Iter::take_len", "scan_ack_blocks"],
-  "first byte MAX_DATA, then every 0..=11 arbitrary bytes (payload length 1..=12)", heavy=True, timeout=1700)
-H("frame_iter_total_11", ["C03", "C10"], "thorough", "frame::iter_step_total",
-  [("first", "u8", 17), ("rest", "[u8; 11]"), ("len", "usize"), ("small", "bool", 0)], 6,
-  ["frame decoded", "frame rejected"], ["frame::Iter::new", "frame::Iter::next", "frame::Iter::try_next", "frame::Iter::take_len", "scan_ack_blocks"],
-  "first byte MAX_STREAM_DATA, then every 0..=11 arbitrary bytes (payload length 1..=12)", heavy=True, timeout=1700)
-H("frame_iter_total_12", ["C03", "C10"], "thorough", "frame::iter_step_total",
-  [("first", "u8", 18), ("rest", "[u8; 11]"), ("len", "usize"), ("small", "bool", 0)], 6,
-  ["frame decoded", "frame rejected"], ["frame::Iter::new", "frame::Iter::next", "frame::Iter::try_next", "frame::Iter::take_len", "scan_ack_blocks"],
-  "first byte MAX_STREAMS_BIDI, then every 0..=11 arbitrary bytes (payload length 1..=12)", heavy=True, timeout=1700)
-H("frame_iter_total_14", ["C03", "C10"], "thorough", "frame::iter_step_total",
-  [("first", "u8", 20), ("rest", "[u8; 11]"), ("len", "usize"), ("small", "bool", 0)], 6,
-  ["frame decoded", "frame rejected"], ["frame::Iter::new", "frame::Iter::next", "frame::Iter::try_next", "frame::Iter::take_len", "scan_ack_blocks"],
-  "first byte DATA_BLOCKED, then every 0..=11 arbitrary bytes (payload length 1..=12)", heavy=True, timeout=1700)
-H("frame_iter_total_15", ["C03", "C10"], "thorough", "frame::iter_step_total",
-  [("first", "u8", 21), ("rest", "[u8; 11]"), ("len", "usize"), ("small", "bool", 0)], 6,
-  ["frame decoded", "frame rejected"], ["frame::Iter::new", "frame::Iter::next", "frame::Iter::try_next", "frame::Iter::take_len", "scan_ack_blocks"],
-  "first byte STREAM_DATA_BLOCKED, then every 0..=11 arbitrary bytes (payload length 1..=12)", heavy=True, timeout=1700)
-H("frame_iter_total_17", ["C03", "C10"], "thorough", "frame::iter_step_total",
-  [("first", "u8", 23), ("rest", "[u8; 11]"), ("len", "usize"), ("small", "bool", 0)], 6,
-  ["frame decoded", "frame rejected"], ["frame::Iter::new", "frame::Iter::next", "frame::Iter::try_next", "frame::Iter::take_len", "scan_ack_blocks"],
-  "first byte STREAMS_BLOCKED_UNI, then every 0..=11 arbitrary bytes (payload length 1..=12)", heavy=True, timeout=1700)
-H("frame_iter_total_18", ["C03", "C10"], "thorough", "frame::iter_step_total",
-  [("first", "u8", 24), ("rest", "[u8; 11]"), ("len", "usize"), ("small", "bool", 0)], 6,
-  ["frame decoded", "frame rejected"], ["frame::Iter::new", "frame::Iter::next", "frame::Iter::try_next", "frame::Iter::take_len", "scan_ack_blocks"],
-  "first byte NEW_CONNECTION_ID, then every 0..=11 arbitrary bytes (payload length 1..=12)", heavy=True, timeout=1700)
-H("frame_iter_total_19", ["C03", "C10"], "thorough", "frame::iter_step_total",
-  [("first", "u8", 25), ("rest", "[u8; 11]"), ("len", "usize"), ("small", "bool", 0)], 6,
-  ["frame decoded", "frame rejected"], ["frame::Iter::new", "frame::Iter::next", "frame::Iter::try_next", "frame::Iter::take_len", "scan_ack_blocks"],
-  "first byte RETIRE_CONNECTION_ID, then every 0..=11 arbitrary bytes (payload length 1..=12)", heavy=True, timeout=1700)
-H("frame_iter_total_1a", ["C03", "C10"], "thorough", "frame::iter_step_total",
-  [("first", "u8", 26), ("rest", "[u8; 11]"), ("len", "usize"), ("small", "bool", 0)], 6,
-  ["frame decoded", "frame rejected"], ["frame::Iter::new", "frame::Iter::next", "frame::Iter::try_next", "frame::Iter::take_len", "scan_ack_blocks"],
-  "first byte PATH_CHALLENGE, then every 0..=11 arbitrary bytes (payload length 1..=12)", heavy=True, timeout=1700)
-H("frame_iter_total_1c", ["C03", "C10"], "thorough", "frame::iter_step_total",
-  [("first", "u8", 28), ("rest", "[u8; 11]"), ("len", "usize"), ("small", "bool", 0)], 6,
-  ["frame decoded", "frame rejected"], ["frame::Iter::new", "frame::Iter::next", "frame::Iter::try_next", "frame::Iter::take_len", "scan_ack_blocks"],
-  "first byte CONNECTION_CLOSE, then every 0..=11 arbitrary bytes (payload length 1..=12)", heavy=True, timeout=1700)
-H("frame_iter_total_1d", ["C03", "C10"], "thorough", "frame::iter_step_total",
-  [("first", "u8", 29), ("rest", "[u8; 11]"), ("len", "usize"), ("small", "bool", 0)], 6,
-  ["frame decoded", "frame rejected"], ["frame::Iter::new", "frame::Iter::next", "frame::Iter::try_next", "frame::Iter::take_len", "scan_ack_blocks"],
-  "first byte APPLICATION_CLOSE, then every 0..=11 arbitrary bytes (payload length 1..=12)", heavy=True, timeout=1700)
-H("frame_iter_total_1e", ["C03", "C10"], "thorough", "frame::iter_step_total",
-  [("first", "u8", 30), ("rest", "[u8; 11]"), ("len", "usize"), ("small", "bool", 0)], 6,
-  ["frame decoded", "frame rejected"], ["frame::Iter::new", "frame::Iter::next", "frame::Iter::try_next", "frame::Iter::take_len", "scan_ack_blocks"],
-  "first byte HANDSHAKE_DONE, then every 0..=11 arbitrary bytes (payload length 1..=12)", heavy=True, timeout=1700)
-H("frame_iter_total_1f", ["C03", "C10"], "thorough", "frame::iter_step_total",
-  [("first", "u8", 31), ("rest", "[u8; 11]"), ("len", "usize"), ("small", "bool", 0)], 6,
-  ["frame decoded", "frame rejected"], ["frame::Iter::new", "frame::Iter::next", "frame::Iter::try_next", "frame::Iter::take_len", "scan_ack_blocks"],
-  "first byte IMMEDIATE_ACK, then every 0..=11 arbitrary bytes (payload length 1..=12)", heavy=True, timeout=1700)
-H("frame_iter_total_30", ["C03", "C10"], "thorough", "frame::iter_step_total",
-  [("first", "u8", 48), ("rest", "[u8; 11]"), ("len", "usize"), ("small", "bool", 0)], 6,
-  ["frame decoded", "frame rejected"], ["frame::Iter::new", "frame::Iter::next", "frame::Iter::try_next", "frame::Iter::take_len", "scan_ack_blocks"],
-  "first byte DATAGRAM, then every 0..=11 arbitrary bytes (payload length 1..=12)", heavy=True, timeout=1700)
-H("frame_iter_total_31", ["C03", "C10"], "thorough", "frame::iter_step_total",
-  [("first", "u8", 49), ("rest", "[u8; 11]"), ("len", "usize"), ("small", "bool", 0)], 6,
-  ["frame decoded", "frame rejected"], ["frame::Iter::new", "frame::Iter::next", "frame::Iter::try_next", "frame::Iter::take_len", "scan_ack_blocks"],
-  "first byte DATAGRAM+len, then every 0..=11 arbitrary bytes (payload length 1..=12)", heavy=True, timeout=1700)
-H("frame_iter_total_20", ["C03", "C10"], "thorough", "frame::iter_step_total",
-  [("first", "u8", 32), ("rest", "[u8; 11]"), ("len", "usize"), ("small", "bool", 0)], 6,
-  ["frame decoded", "frame rejected"], ["frame::Iter::new", "frame::Iter::next", "frame::Iter::try_next", "frame::Iter::take_len", "scan_ack_blocks"],
-  "first byte undefined type 0x20, then every 0..=11 arbitrary bytes (payload length 1..=12)", heavy=True, timeout=1700)
-H("frame_iter_total_40", ["C03", "C10"], "thorough", "frame::iter_step_total",
-  [("first", "u8", 64), ("rest", "[u8; 11]"), ("len", "usize"), ("small", "bool", 0)], 6,
-  ["frame decoded", "frame rejected"], ["frame::Iter::new", "frame::Iter::next", "frame::Iter::try_next", "frame::Iter::take_len", "scan_ack_blocks"],
-  "first byte two-byte type encoding 0x40.., then every 0..=11 arbitrary bytes (payload length 1..=12)", heavy=True, timeout=1700)
-H("frame_iter_total_80", ["C03", "C10"], "thorough", "frame::iter_step_total",
-  [("first", "u8", 128), ("rest", "[u8; 11]"), ("len", "usize"), ("small", "bool", 0)], 6,
-  ["frame decoded", "frame rejected"], ["frame::Iter::new", "frame::Iter::next", "frame::Iter::try_next", "frame::Iter::take_len", "scan_ack_blocks"],
-  "first byte four-byte type encoding, then every 0..=11 arbitrary bytes (payload length 1..=12)", heavy=True, timeout=1700)
-H("frame_iter_total_c0", ["C03", "C10"], "thorough", "frame::iter_step_total",
-  [("first", "u8", 192), ("rest", "[u8; 11]"), ("len", "usize"), ("small", "bool", 0)], 6,
-  ["frame decoded", "frame rejected"], ["frame::Iter::new", "frame::Iter::next", "frame::Iter::try_next", "frame::Iter::take_len", "scan_ack_blocks"],
-  "first byte eight-byte type encoding, then every 0..=11 arbitrary bytes (payload length 1..=12)", heavy=True, timeout=1700)
 H("recv_reinit", ["C06", "C11"], "quick", "connection::streams::recv::reinit",
   [("kind", "u8"), ("size", "u64"), ("code", "u64"), ("sent_max", "u64"), ("end", "u64"), ("bytes_read", "u64"), ("stopped", "bool"), ("initial_max_data", "u64")], 6,
   ["reached"], ["Recv::reinit", "Recv::new", "Assembler::reinit"], "every previous state, every new initial limit: u64")
